@@ -216,6 +216,7 @@ def step (s : DS) (line : String) : DS × String :=
     match argInt? ws "C", argInt? ws "W" with
     | some C, some W => withA s fun a => let (a, sq, st) := readWindow a s.sq C W; finish s a sq st
     | _, _ => (s, "bad-op")
+  | "inmap" :: _ => withA s fun a => (s, s!"ok inmap={hexOfBytes a.inmap.toList}")
   | "geom" :: _ => withA s fun a => (s, s!"ok bpl={a.trk.bpl} rpl={a.trk.rpl}")
   | "pos" :: _ =>
     match argNat? ws "off" with
